@@ -1,3 +1,5 @@
+//go:build p_c08 || p_all
+
 package main
 
 // C08 — fault injection: a panic (error or non-error value) or a stall
